@@ -31,9 +31,12 @@ func (d *detSet) ruleMapRanges(R string, only func(f *ssa.Function) bool) int {
 		"(*store.Store).recordStateChangeKeys": "(*store.Indexer).indexStateChangeKeys",
 	}
 	// callees a map-order loop may hand the iteration variable to (keyed, idempotent sinks), frozen from today's tree
-	keyedSinks := map[string]bool{
-		"(*store.Txn).flush": true, "(*store.Txn).write": true, "(*store.Txn).addToSorted": true, "(*store.SMT).valueOpToSMTNode": true, "(*store.SMT).validateTarget": true,
-		"(store.valueOp).copy": true, "(*github.com/allegro/bigcache/v3.BigCache).Set": true, "bytes.Clone": true,
+	keyedSinks := map[string]bool{"(*github.com/allegro/bigcache/v3.BigCache).Set": true, "bytes.Clone": true}
+	for _, spec := range []string{"store.(*Txn).flush", "store.(*Txn).write", "store.(*Txn).addToSorted", "store.(*SMT).valueOpToSMTNode", "store.(*SMT).validateTarget", "store.(valueOp).copy"} {
+		// resolved through the program (a renamed function is still found, newfn.go), then named as it is called today
+		if f := c.fnQuiet(spec); f != nil {
+			keyedSinks[fnName(origin(f))] = true
+		}
 	}
 	n := 0
 	for _, m := range d.mapRanges() {
